@@ -1,3 +1,4 @@
+import Rp2.Props.Tables.Loops
 import Rp2.Proofs.Flows
 import Rp2.Proofs.Reconcile
 import Rp2.Proofs.ReconcileToDate
@@ -14,20 +15,20 @@ theorem reported_with_allow_negative (below : Int → Bool) (txs : List BTx) (b 
     replay below true b txs = .ok (balAfter b txs) := replay_allow below txs b
 /-- **on the executable model** (`balances` of `Model/Pipeline.lean`, the function the drivers run): acquired, sent and received
     of every account are the plain sums over that account's transactions up to the to-date -/
-theorem model_flows (allowNeg : Bool) (to : Option Int) (ins : List InTx) (outs : List OutTx) (intras : List IntraTx) (bs : List BalRow)
-    (h : balances allowNeg to ins outs intras = .ok bs) (a : Nat) :
-    colOf (·.acq) bs a = sumD dAcq a (balanceOrder to ins outs intras) ∧
-    colOf (·.sent) bs a = sumD dSent a (balanceOrder to ins outs intras) ∧
-    colOf (·.recv) bs a = sumD dRecv a (balanceOrder to ins outs intras) := balances_flows allowNeg to ins outs intras bs h a
+theorem model_flows (allowNeg : Bool) (toD : Option Int) (ins : List InTx) (outs : List OutTx) (intras : List IntraTx) (bs : List BalRow)
+    (h : balances allowNeg toD ins outs intras = .ok bs) (a : Nat) :
+    colOf (·.acq) bs a = sumD dAcq a (balanceOrder toD ins outs intras) ∧
+    colOf (·.sent) bs a = sumD dSent a (balanceOrder toD ins outs intras) ∧
+    colOf (·.recv) bs a = sumD dRecv a (balanceOrder toD ins outs intras) := balances_flows allowNeg toD ins outs intras bs h a
 /-- final = acquired + received − sent -/
-theorem model_final (allowNeg : Bool) (to : Option Int) (ins : List InTx) (outs : List OutTx) (intras : List IntraTx) (bs : List BalRow)
-    (h : balances allowNeg to ins outs intras = .ok bs) (a : Nat) :
-    finOf bs a = colOf (·.acq) bs a + colOf (·.recv) bs a - colOf (·.sent) bs a := balances_final allowNeg to ins outs intras bs h a
+theorem model_final (allowNeg : Bool) (toD : Option Int) (ins : List InTx) (outs : List OutTx) (intras : List IntraTx) (bs : List BalRow)
+    (h : balances allowNeg toD ins outs intras = .ok bs) (a : Nat) :
+    finOf bs a = colOf (·.acq) bs a + colOf (·.recv) bs a - colOf (·.sent) bs a := balances_final allowNeg toD ins outs intras bs h a
 /-- every account touched appears exactly once; no other account appears -/
-theorem model_accounts_once (allowNeg : Bool) (to : Option Int) (ins : List InTx) (outs : List OutTx) (intras : List IntraTx) (bs : List BalRow)
-    (h : balances allowNeg to ins outs intras = .ok bs) :
-    (bs.map (·.acct)).Nodup ∧ ∀ x, x ∈ bs.map (·.acct) ↔ ∃ t ∈ balanceOrder to ins outs intras, x ∈ touched t :=
-  balances_accounts allowNeg to ins outs intras bs h
+theorem model_accounts_once (allowNeg : Bool) (toD : Option Int) (ins : List InTx) (outs : List OutTx) (intras : List IntraTx) (bs : List BalRow)
+    (h : balances allowNeg toD ins outs intras = .ok bs) :
+    (bs.map (·.acct)).Nodup ∧ ∀ x, x ∈ bs.map (·.acct) ↔ ∃ t ∈ balanceOrder toD ins outs intras, x ∈ touched t :=
+  balances_accounts allowNeg toD ins outs intras bs h
 /-- non-vacuity / sanity: buy 5 on account 0, move 2 (1.5 arrive) to account 1, sell 1 from account 1 -/
 example : balAfter (fun _ => 0) [.acq 0 50, .move 0 1 20 15, .out 1 10] 0 = 30 ∧
           balAfter (fun _ => 0) [.acq 0 50, .move 0 1 20 15, .out 1 10] 1 = 5 := by decide
@@ -53,9 +54,9 @@ theorem model_balances_reconcile_with_lots (sched : List (Int × Method)) (allow
     sumFin bs = (ins.map (·.amount)).sum - (fs.map (fun f => if f.lot.isSome then f.amt else (0 : Int))).sum :=
   balances_reconcile_with_lots sched allowNeg ins outs intras fs bs hord hy hf hb hcons hvis
 /-- the sum of the final balances is the net flow of the replayed transactions (any to-date) -/
-theorem model_sum_of_final_balances (allowNeg : Bool) (to : Option Int) (ins : List InTx) (outs : List OutTx) (intras : List IntraTx) (bs : List BalRow)
-    (h : balances allowNeg to ins outs intras = .ok bs) : sumFin bs = ((balanceOrder to ins outs intras).map netOf).sum :=
-  balances_sumFin allowNeg to ins outs intras bs h
+theorem model_sum_of_final_balances (allowNeg : Bool) (toD : Option Int) (ins : List InTx) (outs : List OutTx) (intras : List IntraTx) (bs : List BalRow)
+    (h : balances allowNeg toD ins outs intras = .ok bs) : sumFin bs = ((balanceOrder toD ins outs intras).map netOf).sum :=
+  balances_sumFin allowNeg toD ins outs intras bs h
 /-- … and with a to-date `T`, under monotone local dates (hypothesis LocalDatesMonotone; finding F6 is its failure): the final balances
     reported for `T` add up to everything acquired up to `T` minus what the fractions dated up to `T` take out of lots -/
 theorem model_balances_reconcile_with_lots_to_date (sched : List (Int × Method)) (allowNeg : Bool) (ins : List InTx) (outs : List OutTx)
@@ -68,4 +69,22 @@ theorem model_balances_reconcile_with_lots_to_date (sched : List (Int × Method)
     sumFin bs = ((ins.filter (keepIn T)).map (·.amount)).sum -
       ((fs.filter (fun f => decide (f.ev.ts.day ≤ T))).map (fun f => if f.lot.isSome then f.amt else (0 : Int))).sum :=
   balances_reconcile_with_lots_to_date sched allowNeg ins outs intras fs bs T hord hy hm hmb hf hb hcons hvis
+
+/-- **tie to the source (translator)**: the balance computation of the model is the replay loop of `BalanceSet.__init__` as translated from the
+    Python source on this run (`Gen/Loops.lean`): when the model succeeds the Python dictionaries end up holding exactly the model's rows
+    (account, final, acquired, sent, received — decimals equal to the model's integer grid units) in the same order, and when the model
+    rejects, the Python loop raises.  The size hypothesis (all amounts together below 10¹⁸ coins) is what makes 31-digit decimal addition exact. -/
+theorem source_balance_loop_is_model (allowNeg : Bool) (toD : Option Int) (ins : List InTx) (outs : List OutTx) (intras : List IntraTx)
+    (hsmall : ((balanceOrder toD ins outs intras).map Tables.mass).sum < 10 ^ 29) :
+    match balances allowNeg toD ins outs intras with
+    | .ok bs => ∃ s, (balanceOrder toD ins outs intras).foldlM (Tables.stepAny allowNeg) {} = some s ∧ Gen.L.rows s = bs.map Tables.rowOf
+    | .error _ => (balanceOrder toD ins outs intras).foldlM (Tables.stepAny allowNeg) {} = none :=
+  Tables.balance_loop_is_model allowNeg toD ins outs intras hsmall
+/-- the order in which the three tables enter the replay list, and the `break` at the to-date, as read from the source -/
+theorem source_replay_order_and_cut : Gen.L.replayOrder = ["in", "intra", "out"] ∧ ∀ d t : Int, Gen.L.stops d t = !decide (d ≤ t) :=
+  Tables.replay_order_and_cut
+/-- non-vacuity: a purchase of 5 units followed by a transfer of 2 (1.5 received) satisfies the size hypothesis -/
+example : (([AnyTx.i (mkIn 3 ⟨0, 0⟩ 0 .buy 100 500000000000 none none none), AnyTx.x (mkIntra 7 ⟨1, 0⟩ 0 1 100 200000000000 150000000000)]).map Tables.mass).sum < 10 ^ 29 := by
+  decide
+
 end Rp2.C07
